@@ -30,6 +30,34 @@ theorem wake_spec (s : St) (th : ThreadC) (e : CS.Ev) (pid tid : Nat) :
   · exact ⟨rfl, rfl, rfl, offCpuGroup_spec _ _ _ _ _ _ _ _⟩
   · exact ⟨rfl, rfl, rfl, fun u hu => by simp at hu⟩
 
+/-- no thread-level function of the sample / context-switch paths emits a marker item -/
+theorem offCpuGroup_nomarker (s : St) (h : Nat) (g : CS.Group) (c : Nat) (stk : List SFrame) (lbl : String)
+    (pid tid : Nat) : ∀ u ∈ offCpuGroup s h g c stk lbl pid tid, u.marker = false := by
+  intro u hu
+  unfold offCpuGroup at hu
+  split at hu
+  · simp only [List.mem_cons, List.mem_nil_iff, or_false] at hu
+    rcases hu with hu | hu <;> subst hu <;> rfl
+  · simp only [List.mem_cons, List.mem_nil_iff, or_false] at hu
+    subst hu; rfl
+
+theorem wake_nomarker (s : St) (th : ThreadC) (e : CS.Ev) (pid tid : Nat) :
+    ∀ u ∈ (wake s th e pid tid).2.1, u.marker = false := by
+  unfold wake
+  dsimp only
+  split
+  · exact offCpuGroup_nomarker _ _ _ _ _ _ _ _
+  · exact fun u hu => by simp at hu
+
+theorem sampleThread_nomarker (s : St) (th : ThreadC) (pid tid t period : Nat) (stack : List SFrame) :
+    ∀ u ∈ (sampleThread s th pid tid t period stack).2.1, u.marker = false := by
+  intro u hu
+  unfold sampleThread at hu
+  simp only [List.mem_append, List.mem_singleton] at hu
+  rcases hu with hu | hu
+  · exact wake_nomarker _ _ _ _ _ u hu
+  · subst hu; rfl
+
 theorem switchOutThread_spec (s : St) (th : ThreadC) (t : Nat) :
     (switchOutThread s th t).1.h = th.h ∧ (switchOutThread s th t).1.lastTs = th.lastTs ∧
     (switchOutThread s th t).1.name = th.name ∧ (switchOutThread s th t).2.1 = [] :=
